@@ -24,6 +24,16 @@
 (*   (2) the decomposition:  P_i = sum_m P(m) P(i | m);                    *)
 (*   (3) the textbook closed form of the nested logit.                     *)
 (*                                                                         *)
+(* What is NOT part of a model is stated as well:                          *)
+(*   - the NAMES of the nest objects (component `names` of a case, read by *)
+(*     no definition; invariant NamesIrrelevant quantifies over Namings);  *)
+(*   - earlier constructions: a model is a function of the arguments it is *)
+(*     built from, as they are at that moment.  With Steps = 2 a behaviour *)
+(*     goes on after the first construction: the user's objects (utility   *)
+(*     dictionary, availability dictionary; the nests stay the same) are   *)
+(*     modified and the model is built again (Rebuild); the observable is  *)
+(*     the value of the NEW arguments (invariant Memoryless).               *)
+(*                                                                         *)
 (* A small generator builds one CASE in stages (shape, structure,          *)
 (* observation); TLC explores all cases, checks the invariants on the      *)
 (* model and prints every finished case with the expected probability of   *)
@@ -34,6 +44,8 @@ EXTENDS Integers, Sequences, FiniteSets, TLC, Json, Term
 
 CONSTANTS
     Mutation,     \* "none"; other values switch ONE definition to a known-wrong variant (negative controls)
+    Steps,        \* 1: a behaviour is one construction;  2: a second construction from the modified objects follows
+    Namings,      \* set of <<name_1, name_2>>: ways of naming the two nest objects ("" = the nest is given no name)
     Kinds,        \* subset of {"logit", "nl", "cnl", "mev", "ologit", "oprobit"}
     LabelSeqs,    \* set of sequences of distinct integer labels (2..4 of them, not contiguous, any order)
     AVecs,        \* set of sequences over 1..4: y_i = e^{V_i}; those of the right length are used
@@ -51,8 +63,8 @@ CONSTANTS
     PrbT1s,       \* ordered probit: tau_1
     PrbDiffs      \* ordered probit: tau_{k+1} - tau_k >= 0
 
-VARIABLES stage, c, out
-vars == <<stage, c, out>>
+VARIABLES stage, c, out, prev
+vars == <<stage, c, out, prev>>
 
 ChoiceKinds == {"logit", "nl", "cnl", "mev"}
 OrdKinds    == {"ologit", "oprobit"}
@@ -94,10 +106,19 @@ Pow(x, e) ==
 (*            one 1; a row of zeros = alternative alone in its own nest    *)
 (*   mus    : <<mu_1, mu_2>>, mu: the scale                                *)
 (*   a, av  : y_i = a_i, availability                                      *)
+(*   names  : <<name_1, name_2>> the names the user gives to the two nest  *)
+(*            objects ("" = none: the library then names the nest          *)
+(*            "nest_<position>").  Names are labels for messages: NO        *)
+(*            definition of this module reads them (only the mutant         *)
+(*            "names-matter" does, through EffName).                        *)
 (***************************************************************************)
 N(cc)    == Len(cc.labels)
 Alts(cc) == 1..N(cc)
 NestIds  == {1, 2}
+\* the mutant keys the nests by their (effective) name: a second nest with the name of the first one
+\* takes its place, i.e. both share the parameter of the second.  (Both nests in use: nest m is then the
+\* m-th nest object handed to the library, which names an unnamed one "nest_<m>".)
+EffName(cc, m) == IF cc.names[m] = "" THEN (IF m = 1 THEN "nest_1" ELSE "nest_2") ELSE cc.names[m]
 Al(cc, i, m)  == cc.alpha[i][m]
 Alone(cc, i)  == \A m \in NestIds : IsZero(Al(cc, i, m))
 Used(cc, m)   == \E i \in Alts(cc) : ~IsZero(Al(cc, i, m))
@@ -133,7 +154,8 @@ PUser(cc, y) == LET w(i) == IF Av(cc, i) THEN Mul(y[i], cc.g[i]) ELSE Zero
 (*               S_m^{mu/mu_m - 1},      G_i = mu y_i^{mu-1} when alone,   *)
 (*   S_m = sum_j alpha_jm^{mu_m/mu} y_j^{mu_m}.                            *)
 (***************************************************************************)
-MuOf(cc, m)    == cc.mus[m]
+MuOf(cc, m)    == IF Mutation = "names-matter" /\ Used(cc, 1) /\ Used(cc, 2) /\ EffName(cc, 1) = EffName(cc, 2)
+                  THEN cc.mus[2] ELSE cc.mus[m]
 W(cc, y, m, i) == IF Av(cc, i) /\ ~IsZero(Al(cc, i, m))
                   THEN Mul(Pow(Al(cc, i, m), QDiv(MuOf(cc, m), cc.mu)), Pow(y[i], MuOf(cc, m)))
                   ELSE Zero
@@ -284,9 +306,9 @@ Outcome(cc) ==
 (* Generator.                                                              *)
 (***************************************************************************)
 Blank == [kind |-> "none", labels |-> << >>, alpha |-> << >>, mus |-> <<One, One>>, mu |-> One,
-          a |-> << >>, av |-> << >>, g |-> << >>, x |-> Zero, ts |-> << >>]
+          a |-> << >>, av |-> << >>, g |-> << >>, x |-> Zero, ts |-> << >>, names |-> <<"", "">>]
 NoOut == [p |-> << >>]
-Init == stage = "shape" /\ c = Blank /\ out = NoOut
+Init == stage = "shape" /\ c = Blank /\ out = NoOut /\ prev = Blank
 
 ChooseShape ==
     /\ stage = "shape"
@@ -294,7 +316,7 @@ ChooseShape ==
           c' = [c EXCEPT !.kind = k, !.labels = ls,
                          !.alpha = [i \in 1..Len(ls) |-> <<Zero, Zero>>],
                          !.g = [i \in 1..Len(ls) |-> One]]
-    /\ stage' = "struct" /\ UNCHANGED out
+    /\ stage' = "struct" /\ UNCHANGED <<out, prev>>
 
 \* a nest that no alternative uses keeps parameter one (one representative)
 MusFit(cc, mm) == \A m \in NestIds : Used(cc, m) \/ IsOne(mm[m])
@@ -302,7 +324,7 @@ NlRows == {<<Zero, Zero>>, <<One, Zero>>, <<Zero, One>>}
 \* one representative of the two numberings of the nests: the first nested alternative is in nest 1
 Canon(al) == \A i \in 1..Len(al) : IsZero(al[i][1]) /\ ~IsZero(al[i][2]) =>
                  \E j \in 1..(i - 1) : ~IsZero(al[j][1])
-StructPlain == stage = "struct" /\ c.kind = "logit" /\ c' = c /\ stage' = "obs" /\ UNCHANGED out
+StructPlain == stage = "struct" /\ c.kind = "logit" /\ c' = c /\ stage' = "obs" /\ UNCHANGED <<out, prev>>
 \* (the filters are inside the sets: a disjunction in an action would be explored twice)
 StructNests ==
     /\ stage = "struct" /\ c.kind \in MevKinds
@@ -312,11 +334,11 @@ StructNests ==
                      MusFit([c EXCEPT !.alpha = [i \in Alts(c) |-> al[i]]], pair)} :
        \E mu \in TopMus :
           c' = [c EXCEPT !.alpha = [i \in Alts(c) |-> al[i]], !.mus = mm, !.mu = mu]
-    /\ stage' = "obs" /\ UNCHANGED out
+    /\ stage' = "obs" /\ UNCHANGED <<out, prev>>
 StructUser ==
     /\ stage = "struct" /\ c.kind = "mev"
     /\ \E gs \in [Alts(c) -> GVals] : c' = [c EXCEPT !.g = [i \in Alts(c) |-> gs[i]]]
-    /\ stage' = "obs" /\ UNCHANGED out
+    /\ stage' = "obs" /\ UNCHANGED <<out, prev>>
 
 RECURSIVE Thresholds(_, _, _)
 \* all nondecreasing threshold sequences of length n starting from the set `firsts`
@@ -333,7 +355,7 @@ StructOrdered ==
        \E ts \in Thresholds(c, Len(c.labels) - 1, IF c.kind = "ologit" THEN OrdT1s ELSE PrbT1s) :
           /\ c' = [c EXCEPT !.x = x, !.ts = ts]
           /\ out' = Outcome(c')
-    /\ stage' = "done"
+    /\ stage' = "done" /\ UNCHANGED prev
 
 ChooseObs ==
     /\ stage = "obs"
@@ -342,15 +364,46 @@ ChooseObs ==
           /\ {i \in Alts(c) : av[i]} # {}      \* at least one alternative (the chosen one) is available
           /\ c' = [c EXCEPT !.a = a, !.av = [i \in Alts(c) |-> av[i]]]
           /\ out' = Outcome(c')
-    /\ stage' = "done"
+    /\ stage' = "done" /\ UNCHANGED prev
 
-Next == ChooseShape \/ StructPlain \/ StructNests \/ StructUser \/ StructOrdered \/ ChooseObs
+(***************************************************************************)
+(* A SECOND CONSTRUCTION.  The user keeps the objects the first model was  *)
+(* built from -- the dictionary of utilities, the dictionary of            *)
+(* availabilities, the nests (and the terms G_i of a MEV model) --, puts   *)
+(* other expressions into ONE of the two dictionaries (one entry, or all   *)
+(* of them) and calls the model function again with the same objects.      *)
+(* The model functions are functions: what the second call returns is the  *)
+(* model of the arguments AS THEY ARE NOW; nothing of the first            *)
+(* construction is remembered (Built does not read `previous`; the mutant  *)
+(* keeps the nest sums S_m of the first construction).                     *)
+(***************************************************************************)
+SessionKinds == {"nl", "cnl", "mev"}
+Built(previous, args) ==
+    IF Mutation = "remembers" /\ args.kind \in MevKinds
+    THEN LET sv == SVec(previous, YOf(previous))
+         IN  [Outcome(args) EXCEPT !.p = PCnlFrom(args, YOf(args), sv, GFrom(args, YOf(args), sv))]
+    ELSE Outcome(args)
+\* the arguments after the modification of one dictionary
+OtherUtilities(cc) ==
+    {[cc EXCEPT !.a = [cc.a EXCEPT ![i] = v]] : i \in Alts(cc), v \in 1..4}                  \* one entry replaced
+    \cup {[cc EXCEPT !.a = a] : a \in {x \in AVecs : Len(x) = N(cc)}}                         \* all entries replaced
+OtherAvailabilities(cc) ==
+    {[cc EXCEPT !.av = [i \in Alts(cc) |-> av[i]]] : av \in {f \in [Alts(cc) -> BOOLEAN] : \E i \in Alts(cc) : f[i]}}
+Rebuild ==
+    /\ Steps = 2 /\ stage = "done" /\ c.kind \in SessionKinds
+    /\ \E c2 \in (OtherUtilities(c) \cup OtherAvailabilities(c)) \ {c} :
+          /\ c' = c2
+          /\ out' = Built(c, c2)
+    /\ prev' = c
+    /\ stage' = "done2"
+
+Next == ChooseShape \/ StructPlain \/ StructNests \/ StructUser \/ StructOrdered \/ ChooseObs \/ Rebuild
 Spec == Init /\ [][Next]_vars
 
 (***************************************************************************)
 (* Invariants: the properties, on the model.                               *)
 (***************************************************************************)
-Done      == stage = "done"
+Done      == stage \in {"done", "done2"}
 IsChoice  == c.kind \in ChoiceKinds
 IsMevKind == c.kind \in MevKinds
 
@@ -388,6 +441,11 @@ DerivativeExact ==
 \* reductions
 ReduceToSimpler == Done /\ out.red # "none" => SameSeq(out.redp, out.p)
 ScaleOne        == Done /\ IsMevKind /\ IsOne(c.mu) => SameSeq(out.p1, out.p)
+\* the names of the nest objects are not part of the model: whatever the naming, the same probabilities
+NamesIrrelevant == Done /\ IsMevKind => \A nm \in Namings : P([c EXCEPT !.names = nm]) = P(c)
+\* a model is a function of its current arguments: after  Build(prev); modify; Build(c)  the observable is
+\* what a first construction from c gives
+Memoryless == stage = "done2" => out = Outcome(c)
 \* thresholds are sorted, so that the ordered probit's differences are non-negative
 OrdSorted == Done /\ c.kind \in OrdKinds =>
                  \A k \in 1..(Len(c.ts) - 1) : QLeq(c.ts[k], c.ts[k + 1])
@@ -398,14 +456,19 @@ OrdSorted == Done /\ c.kind \in OrdKinds =>
 Bit(b) == IF b THEN 1 ELSE 0
 Avs    == [i \in 1..Len(c.av) |-> Bit(c.av[i])]
 Common == [kind |-> c.kind, labels |-> c.labels, a |-> c.a, av |-> Avs, p |-> CompactSeq(out.p), exact |-> AllQ(out.p)]
+\* `namings`: the expected values hold for every one of these ways of naming the nest objects (NamesIrrelevant)
 Nested == [alpha |-> [i \in 1..Len(c.alpha) |-> CompactSeq(c.alpha[i])], mus |-> CompactSeq(c.mus), mu |-> Compact(c.mu),
-           refs |-> CompactSeq(out.refs), red |-> out.red, redp |-> CompactSeq(out.redp)]
-Record ==
+           refs |-> CompactSeq(out.refs), red |-> out.red, redp |-> CompactSeq(out.redp), namings |-> Namings]
+Record1 ==
     CASE c.kind = "logit" -> Common
       [] c.kind = "mev"   -> Common @@ [gi |-> CompactSeq(c.g)]
       [] c.kind = "nl"    -> Common @@ Nested @@ [g |-> Compact(out.g), dg |-> CompactSeq(out.dg)]
       [] c.kind = "cnl"   -> Common @@ Nested
       [] OTHER            -> [kind |-> c.kind, labels |-> c.labels, x |-> Compact(c.x), ts |-> CompactSeq(c.ts),
                               p |-> CompactSeq(out.p), exact |-> AllQ(out.p)]
+\* a two-step behaviour: the arguments of the first construction; everything else describes the second one
+Record == IF stage = "done2"
+          THEN Record1 @@ [first |-> [a |-> prev.a, av |-> [i \in 1..Len(prev.av) |-> Bit(prev.av[i])]]]
+          ELSE Record1
 Emit == Done => PrintT(ToJson(Record))
 =============================================================================
